@@ -423,6 +423,15 @@ def check_C11(ctx, w):
     if not ctx.quick:
         ctx.exhaustive = True
     seq_pipeline(ctx, w, tests, ["Conf_C11", "Conf_C01"])
+    # design level (spec/SodRepair.tla): every damage sequence on every consistent database of the bounded model
+    rcfg = ("SPECIFICATION Spec\nCONSTANTS\n  Slots = {%s}\n  Vals = {0, 1}\n  MaxDamage = %d\nINVARIANTS ControlIff RepairConverges NoFalsePositive\n"
+            "PROPERTY RepairKeepsFiles\nCHECK_DEADLOCK FALSE\n") % (", ".join(str(i) for i in range(1, ctx.q(3, 4) + 1)), ctx.q(3, 4))
+    rr = vlib.tlc("SodRepair", rcfg, w.sub("repair"), workers=8, timeout=900, heap="6g")
+    if not rr.completed:
+        raise vlib.Inconclusive("SodRepair.tla fails its own properties (model defect, not a verdict on the code):\n" + rr.out[-2000:])
+    ctx.mc_states += rr.distinct
+    ctx.mc_transitions += rr.generated
+    log("  [SodRepair] design-level damage / recovery model: %d states, ControlIff, RepairConverges, RepairKeepsFiles, NoFalsePositive hold" % rr.distinct)
     count_events(ctx, w, "damage", inner=lambda e: bool(e.get("rm") or e.get("add") or e.get("unindex") or e.get("rmschema")))
 
 
